@@ -3,6 +3,7 @@ C17 — listings agree with each other and with what can be run.
 -/
 import Just.Model.Listing
 import Just.Lemmas.Groups
+import Just.Lemmas.Unsorted
 namespace Just.Props.C17
 open Just.Listing
 
@@ -177,5 +178,73 @@ theorem groups_listed_once (ds : List Decl) (moduleGroups : List String) : (publ
 
 example : publicGroups [⟨"a", [], none, none, ["build", "Build"], false⟩, ⟨"b", [], none, none, ["build"], false⟩,
     ⟨"_c", [], none, none, ["hidden"], true⟩] ["mg"] = ["Build", "build", "mg"] := by decide
+
+/-! ### `--unsorted`: source order across imports -/
+
+/-- a file's own recipes come before those of the files it imports -/
+theorem own_before_imported (a b : Placed) (ha : a.imports = []) (hb : b.imports ≠ []) : placedLt a b = true := by
+  unfold placedLt
+  cases hbi : b.imports with
+  | nil => exact absurd hbi hb
+  | cons x xs => simp [ha, sliceCmp]
+
+/-- more generally: the recipes of a file come before those of every file reached through it -/
+theorem importer_before_imported (a b : Placed) (more : List Nat) (hm : more ≠ []) (hb : b.imports = a.imports ++ more) :
+    placedLt a b = true := by
+  unfold placedLt
+  rw [hb]
+  have : ∀ l : List Nat, sliceCmp l (l ++ more) = .lt := by
+    intro l
+    induction l with
+    | nil => cases more with
+      | nil => exact absurd rfl hm
+      | cons x xs => rfl
+    | cons c l ih => simp [sliceCmp, ih]
+  simp [this]
+
+/-- recipes of one file are listed as written -/
+theorem same_file_in_text_order (a b : Placed) (h : a.imports = b.imports) : placedLt a b = decide (a.offset < b.offset) := by
+  unfold placedLt
+  rw [h, sliceCmp_refl]
+
+/-- of two files imported by the same file, the one whose `import` statement stands first comes first, with everything
+reached through it -/
+theorem earlier_import_first (a b : Placed) (pre ra rb : List Nat) (i j : Nat) (hij : i < j)
+    (ha : a.imports = pre ++ i :: ra) (hb : b.imports = pre ++ j :: rb) : placedLt a b = true := by
+  unfold placedLt
+  rw [ha, hb]
+  have : ∀ l : List Nat, sliceCmp (l ++ i :: ra) (l ++ j :: rb) = .lt := by
+    intro l
+    induction l with
+    | nil => simp [sliceCmp, hij]
+    | cons c l ih => simp [sliceCmp, ih]
+  simp [this]
+
+/-- nothing is lost or invented by the ordering -/
+theorem mem_unsortedOrder (x : Placed) : ∀ l : List Placed, x ∈ unsortedOrder l ↔ x ∈ l
+  | [] => by simp [unsortedOrder]
+  | a :: l => by
+    have ih := mem_unsortedOrder x l
+    simp only [unsortedOrder, List.foldr_cons] at ih ⊢
+    rw [mem_insertPlaced, ih]; simp
+
+theorem length_insertPlaced (r : Placed) : ∀ l : List Placed, (insertPlaced r l).length = l.length + 1
+  | [] => rfl
+  | y :: ys => by
+    unfold insertPlaced
+    split
+    · simp
+    · simp [length_insertPlaced r ys]
+
+theorem length_unsortedOrder : ∀ l : List Placed, (unsortedOrder l).length = l.length
+  | [] => rfl
+  | a :: l => by
+    have ih := length_unsortedOrder l
+    simp only [unsortedOrder, List.foldr_cons] at ih ⊢
+    rw [length_insertPlaced, ih]; simp
+
+example : (unsortedOrder [⟨"zeta", [20, 0], 0⟩, ⟨"inner", [20], 16⟩, ⟨"last", [], 40⟩, ⟨"alpha", [20, 0], 12⟩, ⟨"top", [], 0⟩]).map Placed.name
+    = ["top", "last", "inner", "zeta", "alpha"] := by decide
+
 
 end Just.Props.C17
